@@ -15,7 +15,8 @@ import (
 // Bounds limit departures from the default execution; executions always run
 // to completion.
 type Bounds struct {
-	P   int // preemptions
+	P   int // preemptions: switching away from a thread that could continue
+	F   int // delays: a non-default pick after the running thread blocked or exited (-1 = unbounded, as in CHESS)
 	Sel int // non-default select picks
 	Env int // non-default environment answers
 }
@@ -103,7 +104,10 @@ func Explore(cfg Config, body func()) *Report {
 	if cfg.Iterative {
 		rounds = nil
 		for k := 0; ; k++ {
-			b := Bounds{P: minInt(cfg.Bounds.P, k), Sel: minInt(cfg.Bounds.Sel, k), Env: minInt(cfg.Bounds.Env, k)}
+			b := Bounds{P: minInt(cfg.Bounds.P, k), F: minInt(cfg.Bounds.F, k), Sel: minInt(cfg.Bounds.Sel, k), Env: minInt(cfg.Bounds.Env, k)}
+			if cfg.Bounds.F < 0 {
+				b.F = -1
+			}
 			rounds = append(rounds, b)
 			if b == cfg.Bounds {
 				break
@@ -177,7 +181,7 @@ func Explore(cfg Config, body func()) *Report {
 				}
 			}
 			// children: deviate at every later choice point
-			usedP, usedS, usedE := cost(e.Choices[:len(it.picks)])
+			usedP, usedF, usedS, usedE := cost(e.Choices[:len(it.picks)])
 			for i := len(e.Choices) - 1; i >= len(it.picks); i-- {
 				c := e.Choices[i]
 				if c.N <= 1 {
@@ -187,6 +191,10 @@ func Explore(cfg Config, body func()) *Report {
 					switch c.Cls {
 					case ClsSched:
 						if usedP+1 > bound.P {
+							continue
+						}
+					case ClsSwitch:
+						if bound.F >= 0 && usedF+1 > bound.F {
 							continue
 						}
 					case ClsSelect:
@@ -242,11 +250,11 @@ func minInt(a, b int) int {
 }
 
 func within(cs []Choice, from int, b Bounds) bool {
-	p, s, e := cost(cs)
-	return p <= b.P && s <= b.Sel && e <= b.Env
+	p, f, s, e := cost(cs)
+	return p <= b.P && (b.F < 0 || f <= b.F) && s <= b.Sel && e <= b.Env
 }
 
-func cost(cs []Choice) (p, s, e int) {
+func cost(cs []Choice) (p, f, s, e int) {
 	for _, c := range cs {
 		if c.Pick == 0 || !c.Costs {
 			continue
@@ -254,6 +262,8 @@ func cost(cs []Choice) (p, s, e int) {
 		switch c.Cls {
 		case ClsSched:
 			p++
+		case ClsSwitch:
+			f++
 		case ClsSelect:
 			s++
 		case ClsEnv:
